@@ -1,6 +1,7 @@
 package harness
 
 import (
+	"strings"
 	"time"
 	"fmt"
 
@@ -267,6 +268,12 @@ func scenarioC09UP4(r *Run) {
 	r.DrawStrategy()
 	r.Sim.StepCost = 0
 	cells := int64(12 + 4*r.Ch.Choose(4, "arrays"))
+	// one run in four: arrays so small that sessions are attached until the meter
+	// cells run out (an odd number of usable cells: one is left over at the end)
+	fill := r.Ch.Choose(4, "fill") == 1
+	if fill {
+		cells = int64(6 + 2*r.Ch.Choose(3, "fill-arrays"))
+	}
 	for _, n := range []string{mApp, mSess} {
 		r.W.P4.Resize(n, cells)
 	}
@@ -301,9 +308,71 @@ func scenarioC09UP4(r *Run) {
 		}
 		return true
 	}
+	if fill {
+		// every accepted session is judged (rates per cell); the first refusal ends the run
+		attach(int(cells))
+		r.Probe("attached-until-the-meter-cells-ran-out")
+		r.Skel("fill")
+		r.CheckNoPanics("C09")
+		return
+	}
 	if !attach(2 + r.Ch.Choose(3, "before")) {
 		r.CheckNoPanics("C09")
 		return
+	}
+	// a Session Deletion refused because one of its table DELETE Writes fails:
+	// the session lives on with the rates it was given
+	if live := r.LiveSessions(); len(live) > 0 && r.Ch.Choose(3, "refused-deletion") == 1 && r.Hard() == 0 {
+		sv := live[r.Ch.Choose(len(live), "refused-deletion-which")]
+		sw := r.W.P4
+		sw.FailKind = "transport"
+		sw.Faults.FailNth = sw.Writes + 1 + r.Ch.Choose(3, "refused-deletion-write")
+		dr := p.Delete(sv)
+		sw.Faults.FailNth = 0
+		tableDelete := false
+		if n := len(sw.WriteLog); n > 0 && sw.WriteLog[n-1].Failed == "transport" {
+			tableDelete = strings.Contains(sw.WriteLog[n-1].Summary, "DEL:T")
+		}
+		if dr.Accepted {
+			delete(p.Sessions, sv.CPSEID)
+		} else if dr.Rx != nil && !tableDelete {
+			// the Write that failed came after the table entries were gone: what is
+			// left of the session then is not for this property to say; the run ends
+			r.Probe("refused-deletion-after-the-table-deletes")
+			r.CheckNoPanics("C09")
+			return
+		} else if dr.Rx != nil {
+			r.Fault("p4-write-fails-in-deletion")
+			r.Skel("refused-deletion")
+			r.Op("deletion of cp=%d refused (cause %d) after one of its table DELETE Writes failed: the session stays", sv.CPSEID, dr.Cause)
+			// only the meters are this property's matter here (what else a refused
+			// deletion leaves behind is C04's / C05's)
+			nv := len(r.Violations)
+			first := r.FirstOnly
+			r.FirstOnly = false
+			r.CheckUP4Image("C09", fmt.Sprintf("after the refused deletion of cp=%d", sv.CPSEID), "refused-del:up4", o)
+			r.FirstOnly = first
+			kept := r.Violations[:nv]
+			for _, v := range r.Violations[nv:] {
+				if strings.HasPrefix(v.Sig, "meters:") {
+					kept = append(kept, v)
+				} else {
+					r.Probe("non-qos-discrepancy-after-refused-deletion")
+				}
+			}
+			r.Violations = kept
+			if len(r.Violations) > 0 {
+				r.CheckNoPanics("C09")
+				return
+			}
+			// end it for good before going on
+			if dr2 := p.Delete(sv); dr2.Accepted {
+				delete(p.Sessions, sv.CPSEID)
+			} else {
+				r.CheckNoPanics("C09")
+				return
+			}
+		}
 	}
 	if r.Ch.Choose(3, "restart") != 0 && r.Hard() == 0 {
 		r.KillAgent()
